@@ -259,7 +259,7 @@ fn c07_scenario(r: &mut Report, seed: u64, case: u64) {
         if late + never > 0 {
             let (vid, at, t) = witness.unwrap();
             r.violation(
-                &format!("C07:otlp:flush-returned-before-acknowledgement:{}:{}", tname, if never > 0 { "never-acknowledged" } else { "acknowledged-after-flush-returned" }),
+                &format!("C07:otlp:flush-returned-before-acknowledgement:{}:{}", tname, if never > 0 { "not-acknowledged-by-the-end-of-the-scenario" } else { "acknowledged-after-flush-returned" }),
                 &format!(
                     "blocking_flush (called at stamp {}, returned true at {}) although {} events emitted before it were acknowledged only later and {} never; e.g. v{} emitted at {} acknowledged at {:?}",
                     f.call, f.ret, late, never, vid, at, t
@@ -594,8 +594,9 @@ fn main() {
         let case = load_replay(path);
         let c = case.get("case").and_then(|v| v.as_u64()).unwrap_or(0);
         let s = case.get("seed").and_then(|v| v.as_u64()).unwrap_or(seed);
-        for _ in 0..3 {
+        for i in 0..3 {
             c07_scenario(&mut r, s, c);
+            r.nontrivial(&("replay-run", i));
         }
         std::process::exit(r.finish());
     }
